@@ -113,8 +113,16 @@ def full_library():
     return bezier_library() + arc_library()
 
 
+# arcs known to make() but not part of the shape library every harness iterates over (used by single families)
+EXTRA_ARCS = {
+    # chord 1, radius 1e7: a sweep of 5.7e-6 degrees, indistinguishable from a straight stroke by eye
+    'A_nearly_straight': (0j, 1e7 + 1e7j, 0.0, False, True, 1 + 0j),
+    'A_nearly_straight_cw_rot': (0.5 + 0.5j, 3e6 + 3e6j, 30.0, False, False, 2.5 + 1.5j),
+}
+
+
 def spec(name):
-    for d in (LINES, QUADS, CUBICS, ARCS):
+    for d in (LINES, QUADS, CUBICS, ARCS, EXTRA_ARCS):
         if name in d:
             return d[name]
     raise KeyError(name)
@@ -137,7 +145,7 @@ def make(name, scale=1.0, shift=0j, rot=0):
     (exact construction, not through the library's own transforms)"""
     v = spec(name)
     w = _rot(rot)
-    if name in ARCS:
+    if name in ARCS or name in EXTRA_ARCS:
         s, r, rotation, la, sw, e = v
         seg = Arc(s * w * scale + shift, r * scale, rotation + rot, la, sw, e * w * scale + shift)
     else:
@@ -197,7 +205,35 @@ def with_module_settings_changed(obj):
     return obj
 
 
+DERIVE_ERRORS = []
+
+
 def derive(seg, prov):
+    """_derive, but an operation of the library that RAISES on a library segment is recorded (the worker turns the
+    record into a violation of the running property) instead of aborting the shard; the plain segment is used then"""
+    if not prov:
+        return seg
+    try:
+        return _derive(seg, prov)
+    except Exception as e:
+        from mc.enc import seg2j
+        try:
+            DERIVE_ERRORS.append({'prov': prov, 'seg': seg2j(seg), 'exc': type(e).__name__})
+        except Exception:
+            pass
+        return seg
+
+
+def replay_derive(case):
+    from mc.enc import j2seg
+    try:
+        _derive(j2seg(case['seg']), case['prov'])
+    except Exception as e:
+        return [{'clause': 'operation_on_library_object_raises', 'case': case, 'observed': type(e).__name__, 'expected': None, 'detail': None}]
+    return []
+
+
+def _derive(seg, prov):
     if not prov:
         return seg
     import numpy as np
@@ -247,6 +283,13 @@ def derive(seg, prov):
             return seg
         return q if _same_path([seg], [q]) else seg
     raise ValueError(prov)
+
+
+def rescaled_segment(seg, sc):
+    """the same shape, every coordinate multiplied by sc (constructed, not through the library's scaled())"""
+    if isinstance(seg, Arc):
+        return Arc(seg.start * sc, seg.radius * sc, seg.rotation, seg.large_arc, seg.sweep, seg.end * sc)
+    return type(seg)(*[q * sc for q in seg.bpoints()])
 
 
 def fresh_copy(seg):
